@@ -2,6 +2,7 @@ package rules
 
 import (
 	"fmt"
+	"go/token"
 	"go/types"
 	"strings"
 
@@ -641,6 +642,133 @@ func init() {
 			x.C.Count("byte lengths of text content", nLen)
 			if nConv < 6 {
 				x.C.Vacuous(x.id()+" rune conversions", nConv, 6)
+			}
+		}})
+}
+
+func init() {
+	register(&Rule{ID: "OPT.wire", Min: 20, Text: "optional arguments are honoured when given: in every production function with a variadic parameter v, a branch taken on a length test of v (len(v) > c, >= c, != 0, == 0 on the other edge) demands exactly as many elements as the code on that branch reads — the test that guards v[0] is 'at least one', not 'at least two'. A test that demands more than is used silently ignores an argument the caller did pass (an eviction callback never wired, an include-removed flag never seen)",
+		Run: func(x *Ctx) {
+			n := 0
+			for _, fn := range x.P.ProdFuncs() {
+				if fn.Signature == nil || !fn.Signature.Variadic() || len(fn.Params) == 0 || len(fn.Blocks) == 0 {
+					continue
+				}
+				if o := fn.Origin(); o != nil && o != fn {
+					continue
+				}
+				v := fn.Params[len(fn.Params)-1]
+				isLenV := func(w ssa.Value) bool {
+					c, ok := prog.Strip(w).(*ssa.Call)
+					if !ok {
+						return false
+					}
+					bi, isB := c.Call.Value.(*ssa.Builtin)
+					return isB && bi.Name() == "len" && prog.Reaches(c.Call.Args[0], func(u ssa.Value) bool { return u == ssa.Value(v) })
+				}
+				cnt := 0
+				for _, b := range fn.Blocks {
+					iff := prog.IfOf(b)
+					if iff == nil {
+						continue
+					}
+					bo, ok := iff.Cond.(*ssa.BinOp)
+					if !ok {
+						continue
+					}
+					var c int64
+					var isC bool
+					op := bo.Op
+					switch {
+					case isLenV(bo.X):
+						c, isC = prog.IntConst(bo.Y)
+					case isLenV(bo.Y):
+						c, isC = prog.IntConst(bo.X)
+						// swap the comparison
+						switch op {
+						case token.GTR:
+							op = token.LSS
+						case token.LSS:
+							op = token.GTR
+						case token.GEQ:
+							op = token.LEQ
+						case token.LEQ:
+							op = token.GEQ
+						}
+					}
+					if !isC {
+						continue
+					}
+					// the edge on which 'at least need elements' is known, and need
+					var need int64
+					var succ *ssa.BasicBlock
+					switch op {
+					case token.GTR:
+						need, succ = c+1, b.Succs[0]
+					case token.GEQ:
+						need, succ = c, b.Succs[0]
+					case token.NEQ:
+						if c != 0 {
+							continue
+						}
+						need, succ = 1, b.Succs[0]
+					case token.EQL:
+						if c != 0 {
+							continue
+						}
+						need, succ = 1, b.Succs[1]
+					case token.LEQ:
+						need, succ = c+1, b.Succs[1]
+					case token.LSS:
+						need, succ = c, b.Succs[1]
+					default:
+						continue
+					}
+					if need <= 0 {
+						continue
+					}
+					// the largest constant index of v read in the region dominated by that edge
+					maxIdx := int64(-1)
+					ranged := false
+					for _, d := range fn.Blocks {
+						if !(succ == d || succ.Dominates(d)) || len(succ.Preds) != 1 {
+							continue
+						}
+						for _, ins := range d.Instrs {
+							switch t := ins.(type) {
+							case *ssa.IndexAddr:
+								if prog.Reaches(t.X, func(u ssa.Value) bool { return u == ssa.Value(v) }) {
+									if k, isK := prog.IntConst(t.Index); isK {
+										if k > maxIdx {
+											maxIdx = k
+										}
+									} else {
+										ranged = true
+									}
+								}
+							case *ssa.Slice, *ssa.Range:
+								ranged = true
+							case ssa.CallInstruction:
+								for _, a := range t.Common().Args {
+									if prog.Reaches(a, func(u ssa.Value) bool { return u == ssa.Value(v) }) {
+										ranged = true // handed on as a whole
+									}
+								}
+							}
+						}
+					}
+					if maxIdx < 0 || ranged {
+						continue
+					}
+					n++
+					cnt++
+					x.check(need == maxIdx+1, fmt.Sprintf("func=%s optional=%s test#%d demands-what-it-reads", prog.FnName(fn), v.Name(), cnt), x.P.InstrPos(iff),
+						fmt.Sprintf("the branch demands %d element(s) and reads up to index %d", need, maxIdx),
+						fmt.Sprintf("the branch is taken only with at least %d element(s) of %s but reads only up to index %d: an argument the caller passed is ignored (or, the other way round, an index may be out of range)", need, v.Name(), maxIdx))
+				}
+			}
+			if n < 20 {
+				x.C.Vacuous(x.id()+" length tests of variadic parameters", n, 20)
 			}
 		}})
 }
